@@ -368,3 +368,112 @@ func VHTrim() {
 		vCover("trim both ends, keeps a middle")
 	}
 }
+
+// VHGroupCountLarge: long inputs with concrete key patterns (no forking on key equality) and
+// symbolic payloads: sizes past the first reallocation boundaries of any internal buffer.
+type c14kv struct{ k, tag int }
+
+func VHGroupCountLarge() {
+	n := 1 + vChoose("n", vParam("NL"))
+	d := 1 + vChoose("distinct", n)
+	pat := vChoose("pattern", 2)
+	s := make([]c14kv, n)
+	block := (n + d - 1) / d
+	for i := range s {
+		k := i % d // round-robin: every key reappears after all keys were seen
+		if pat == 1 {
+			k = i / block // blocks
+		}
+		s[i] = c14kv{100 + k, vInt("tag")}
+	}
+	snap := append([]c14kv(nil), s...)
+	keyer := func(v c14kv) int { return v.k }
+	g := GroupBy(s, keyer)
+	c := CountBy(s, keyer)
+	var keys []int
+	var members [][]c14kv
+	for _, v := range snap {
+		found := -1
+		for j, kk := range keys {
+			if kk == v.k {
+				found = j
+			}
+		}
+		if found < 0 {
+			keys = append(keys, v.k)
+			members = append(members, []c14kv{v})
+		} else {
+			members[found] = append(members[found], v)
+		}
+	}
+	vAssert(len(g) == len(keys), "GroupBy (long input): one group per distinct key")
+	vAssert(len(c) == len(keys), "CountBy (long input): one count per distinct key")
+	total := 0
+	for j := range keys {
+		if j >= len(g) || j >= len(c) {
+			break
+		}
+		vAssert(g[j].Key == keys[j], "GroupBy (long input): groups in first-appearance order")
+		vAssert(len(g[j].Values) == len(members[j]), "GroupBy (long input): every member is in its group")
+		for i := range members[j] {
+			if i < len(g[j].Values) {
+				vAssert(g[j].Values[i] == members[j][i], "GroupBy (long input): members in original order")
+			}
+		}
+		total += len(g[j].Values)
+		vAssert(c[j].Key == keys[j], "CountBy (long input): counts in first-appearance order")
+		vAssert(c[j].Count == len(members[j]), "CountBy (long input): count is the group size")
+	}
+	vAssert(total == n, "GroupBy (long input): group sizes sum to n")
+	for i := range s {
+		vAssert(s[i] == snap[i], "GroupBy/CountBy (long input) do not modify the input")
+	}
+	if d >= 9 && n > d {
+		vCover("groupby long: > 8 distinct keys with repeats")
+	}
+}
+
+// VHLongInputs: the order-preserving helpers on inputs longer than the forking harnesses
+// reach, with concrete selection patterns and symbolic payloads.
+func VHLongInputs() {
+	n := vChoose("n", vParam("NL")+1)
+	s := make([]int, n)
+	for i := range s {
+		s[i] = vInt("e")
+	}
+	snap := append([]int(nil), s...)
+	mod := 2 + vChoose("mod", 3)
+	idx := map[int]int{}
+	for i, v := range snap {
+		_ = v
+		idx[i] = i
+	}
+	pos := 0
+	// Filter with a position-based predicate (the callback sees elements in order)
+	f := Filter(s, func(int) bool { pos++; return (pos-1)%mod == 0 })
+	k := 0
+	for i := 0; i < n; i++ {
+		if i%mod == 0 {
+			vAssert(k < len(f) && f[k] == snap[i], "Filter (long input): matching elements in order")
+			k++
+		}
+	}
+	vAssert(len(f) == k, "Filter (long input): only matching elements")
+	m := Map(s, func(v int) int { return vUF1("conv", v) })
+	vAssert(len(m) == n, "Map (long input): same length")
+	for i := range m {
+		vAssert(m[i] == vUF1("conv", snap[i]), "Map (long input): element-wise")
+	}
+	acc := Fold(s, 0, func(st, v int) int { return vUF2("acc", st, v) })
+	exp := 0
+	for i := 0; i < n; i++ {
+		exp = vUF2("acc", exp, snap[i])
+	}
+	vAssert(acc == exp, "Fold (long input)")
+	for i := range s {
+		vAssert(s[i] == snap[i], "long-input helpers do not modify the input")
+	}
+	if n >= 17 {
+		vCover("long inputs n >= 17")
+	}
+}
